@@ -639,8 +639,10 @@ def check_c18(case, rec, hash_seeds, rng):
         path = f.name
     runs = collections.OrderedDict()
     try:
-        for hs in hash_seeds:
-            runs['fresh-interpreter-hashseed-%d' % hs] = sub_digest((path, hs))
+        from multiprocessing.pool import ThreadPool
+        with ThreadPool(min(8, len(hash_seeds))) as tp:
+            for hs, dg in zip(hash_seeds, tp.map(sub_digest, [(path, hs) for hs in hash_seeds])):
+                runs['fresh-interpreter-hashseed-%d' % hs] = dg
     finally:
         os.unlink(path)
     d0 = runs['fresh-interpreter-hashseed-%d' % hash_seeds[0]]
@@ -698,6 +700,30 @@ def _exec(case):
     return k7_real.run_session(case)
 
 
+def _exec_reused(case):
+    """the session run on a data-source object that already served a whole session (and so has already been asked
+    about, and may remember, every later bar): returns the record of the second session"""
+    import shutil
+    from qstrader.data.daily_bar_csv import CSVDailyBarDataSource
+    d = tempfile.mkdtemp(prefix='qsv_k7_')
+    try:
+        k2.write_csvs(case['market'], d)
+        ds = CSVDailyBarDataSource(d, None, adjust_prices=case.get('adjust', True), csv_symbols=sorted(case['market']))
+        k7_real.run_session(case, data_dir=d, data_source=ds)
+        return k7_real.run_session(case, data_dir=d, data_source=ds)
+    except Exception as e:   # construction of the source itself failed: nothing to compare
+        return dict(construct=None, err=['source', type(e).__name__])
+    finally:
+        shutil.rmtree(d, ignore_errors=True)
+
+
+def run_many_reused(cases):
+    if len(cases) <= 2:
+        return [_exec_reused(c) for c in cases]
+    with multiprocessing.Pool(min(16, len(cases))) as pool:
+        return pool.map(_exec_reused, cases, chunksize=max(1, len(cases) // 64))
+
+
 def run_many(cases, procs=None):
     procs = procs or min(16, max(1, len(cases)))
     if len(cases) <= 2 or procs == 1:
@@ -708,6 +734,7 @@ def run_many(cases, procs=None):
 
 def classify(case, rec, hist):
     hist['family:' + case.get('family', 'corpus')] += 1
+    hist['assets:%d' % len(case['market'])] += 1
     hist['rebalance:' + case['rebalance']] += 1
     hist['long_only' if case['long_only'] else 'long_short'] += 1
     hist['fee:' + case['fee'][0]] += 1
@@ -763,7 +790,9 @@ def run_batch(prop, tier, rng, cases, n_corpus):
             cuts.append(cut)
             cases2.append(dict(c, market=cut_market(rng, c, cut)))
         reals2 = run_many(cases2)
-        pairs = list(zip(cuts, reals2))
+        n3 = len(cases) if tier == 'thorough' else min(len(cases), 120)
+        reals3 = run_many_reused(cases[:n3]) + [None] * (len(cases) - n3)
+        pairs = list(zip(cuts, reals2, reals3))
     for i, (c, r) in enumerate(zip(cases, reals)):
         classify(c, r, hist)
         m_raw = outs[spans[i][0] + spans[i][1] - 1] if spans[i] is not None else None
@@ -779,12 +808,23 @@ def run_batch(prop, tier, rng, cases, n_corpus):
         elif prop == 'C14':
             mm, oo, status = check_c14(c, r, m, tally)
         elif prop == 'C07':
-            cut, r2 = pairs[i]
+            cut, r2, r3 = pairs[i]
             oo = check_c07(c, r, r2, cut)
             stats['paired_runs'] += 1
+            if r3 is not None and r3.get('construct') is not None and r['construct'] == 'ok':
+                stats['runs_on_a_source_that_already_served_a_session'] += 1
+                T = (cut + 1) * 86400 - 1
+                for upto, lab in ((T, 'up to day %d' % cut), (None, 'of the whole run')):
+                    d1, b1 = k7_real.digest(r, upto=upto)
+                    d3, b3 = k7_real.digest(r3, upto=upto)
+                    if d1 != d3:
+                        diff = [k for k in b1 if b1[k] != b3.get(k)]
+                        oo.append(dict(what='results %s differ when the data source has already served a session over the later bars (%s)' % (
+                            lab, ', '.join(diff)[:200]), key='depends-on-later-data-already-read'))
+                        break
             stats['reads_checked'] += len(r.get('reads', []))
         elif prop == 'C18':
-            k = 2 if tier == 'quick' else 8
+            k = 4 if tier == 'quick' else 8
             oo, nruns = check_c18(c, r, [rng.randrange(1, 10 ** 6) for _ in range(k)], rng)
             stats['repeated_runs'] += nruns
         elif prop == 'C16':
@@ -821,7 +861,7 @@ def run(prop, tier, seed, n_cases, corpus=()):
     first = True
     while first or remaining > 0:
         k = min(BATCH, remaining)
-        batch = (todo if first else []) + [k7_gen.gen_case(rng, FAMILY[prop]) for _ in range(k)]
+        batch = (todo if first else []) + [k7_gen.gen_case(rng, ('rotation' if prop == 'C18' and j % 2 == 0 else FAMILY[prop])) for j in range(k)]
         remaining -= k
         r = run_batch(prop, tier, rng, batch, n_corpus if first else 0)
         first = False
